@@ -40,17 +40,61 @@ pub fn run_case(case: &J, n_threads: usize, n_evals: usize, mode: &str) -> Resul
     let built = build_ruleset(&case["env"], rules_of(case)?)?;
     let rs = Arc::new(built.ruleset);
     let log = built.log.clone();
-    let input_of = |id: usize| Value::Map([("a".to_string(), Value::Int(1 + (id % 3) as i128))].into_iter().collect());
+    // {a: 1 + id % 3, s: one of five timestamps}: 15 different inputs
+    const DATES: [&str; 5] = ["1970-01-01T00:00:00Z", "2015-07-30T03:26:13Z", "2015-07-30T03:26:13.5+02:00", "1969-12-31T23:59:59.999999999Z", "2000-02-29T12:00:00-05:30"];
+    const NI: usize = 15;
+    let input_of = |id: usize| Value::Map([("a".to_string(), Value::Int(1 + (id % 3) as i128)), ("s".to_string(), Value::String(DATES[id % 5].to_string()))].into_iter().collect());
     // sequential reference (its own ruleset instance so that the log is separate)
     let seq_built = build_ruleset(&case["env"], rules_of(case)?)?;
     let mut reference = Vec::new();
-    for id in 0..3usize {
+    for id in 0..NI {
         let outs = block_on(seq_built.ruleset.evaluate_value(&input_of(id))).map_err(|p| format!("sequential run panicked: {p}"))?.map_err(|e| e.to_string())?;
         reference.push(outcomes_model(&outs));
     }
     let mut results: Vec<(usize, J)> = Vec::new();
     match mode {
-        "tokio" => {
+        "migrate" => {
+            // every evaluation is started (polled once) on thread A and completed on thread B: whatever an evaluation
+            // leaves behind on the thread it started on meets every later evaluation
+            type Fut = std::pin::Pin<Box<dyn std::future::Future<Output = Result<J, String>> + Send>>;
+            let (tx, rx) = std::sync::mpsc::channel::<(usize, Result<Fut, J>)>();
+            let rs_a = rs.clone();
+            let a = std::thread::spawn(move || {
+                for id in 1..=n_evals {
+                    let rs = rs_a.clone();
+                    let mut fut: Fut = Box::pin(EV.scope(id, async move {
+                        let input = input_of(id);
+                        let r = rs.evaluate_value(&input).await;
+                        r.map(|outs| outcomes_model(&outs)).map_err(|e| e.to_string())
+                    }));
+                    let first = {
+                        let mut cx = std::task::Context::from_waker(std::task::Waker::noop());
+                        std::panic::catch_unwind(std::panic::AssertUnwindSafe(|| fut.as_mut().poll(&mut cx))).map_err(panic_msg)
+                    };
+                    let msg = match first {
+                        Err(p) => Err(json!({"panic": p})),
+                        Ok(std::task::Poll::Ready(Ok(x))) => Err(x),
+                        Ok(std::task::Poll::Ready(Err(e))) => Err(json!({"whole_error": e})),
+                        Ok(std::task::Poll::Pending) => Ok(fut),
+                    };
+                    if tx.send((id, msg)).is_err() { break; }
+                }
+            });
+            let b = std::thread::spawn(move || {
+                let mut out = Vec::new();
+                for (id, msg) in rx {
+                    match msg {
+                        Err(x) => out.push((id, x)),
+                        Ok(fut) => out.push((id, match block_on(fut) { Ok(Ok(x)) => x, Ok(Err(e)) => json!({"whole_error": e}), Err(p) => json!({"panic": p}) })),
+                    }
+                }
+                out
+            });
+            a.join().map_err(|_| "thread A panicked")?;
+            results = b.join().map_err(|_| "thread B panicked")?;
+        }
+        "tokio" | "tokio4" => {
+            let n_threads = if mode == "tokio4" { 4 } else { n_threads };
             let rt = tokio::runtime::Builder::new_multi_thread().worker_threads(n_threads).build().map_err(|e| e.to_string())?;
             let hs: Vec<_> = (1..=n_evals)
                 .map(|id| {
@@ -111,8 +155,8 @@ pub fn run_case(case: &J, n_threads: usize, n_evals: usize, mode: &str) -> Resul
             mismatches.push(json!({"why": format!("evaluation {id} did not return outcomes: {x}"), "mode": mode}));
             continue;
         }
-        if *x != reference[id % 3] {
-            mismatches.push(json!({"why": format!("evaluation {id} returned outcomes that differ from the sequential run"), "mode": mode, "concurrent": x, "sequential": reference[id % 3]}));
+        if *x != reference[id % NI] {
+            mismatches.push(json!({"why": format!("evaluation {id} returned outcomes that differ from the sequential run"), "mode": mode, "concurrent": x, "sequential": reference[id % NI]}));
         }
         records.push(json!({"env": case["env"], "rules": case["rules"], "input": to_model(&input_of(*id)), "x": x, "calls": calls, "id": id, "mode": mode}));
     }
